@@ -83,6 +83,8 @@ pub struct VT {
 	pub decode_depth: fn(u32, &[u8]) -> DecRes,
 	pub decode_all_depth: fn(u32, &[u8]) -> Result<Value, String>,
 	pub decode_from_bytes: fn(Vec<u8>) -> DecRes,
+	/// the bytes decoded as the boxed / shared holders of the type: (holder, value, consumed)
+	pub decode_holders: fn(&[u8]) -> Vec<(&'static str, DecRes)>,
 	/// decode and drop without converting the value (for allocation measurements): Ok?
 	pub probe: fn(&[u8]) -> bool,
 	pub probe_dyn: fn(&mut dyn Input) -> bool,
@@ -238,6 +240,24 @@ fn dec_from_bytes<T: Subject + Decode>(data: Vec<u8>) -> DecRes {
 	}
 }
 
+fn dec_holders<T: Subject + Decode>(data: &[u8]) -> Vec<(&'static str, DecRes)> {
+	use std::{rc::Rc, sync::Arc};
+	fn run<H: Decode, T: Subject>(data: &[u8], get: impl Fn(&H) -> &T) -> DecRes {
+		let mut s = data;
+		match H::decode(&mut s) {
+			Ok(h) => Ok(DecOk { value: get(&h).to_value(), consumed: data.len() - s.len() }),
+			Err(e) => Err(e.to_string()),
+		}
+	}
+	vec![
+		("Box<T>", run::<Box<T>, T>(data, |h| &**h)),
+		("Rc<T>", run::<Rc<T>, T>(data, |h| &**h)),
+		("Arc<T>", run::<Arc<T>, T>(data, |h| &**h)),
+		("Box<Box<T>>", run::<Box<Box<T>>, T>(data, |h| &***h)),
+		("[T; 1]", run::<[T; 1], T>(data, |h| &h[0])),
+	]
+}
+
 fn probe<T: Decode>(data: &[u8]) -> bool {
 	let mut s = data;
 	T::decode(&mut s).is_ok()
@@ -329,6 +349,7 @@ impl VT {
 			decode_depth: dec_depth::<T>,
 			decode_all_depth: dec_all_depth::<T>,
 			decode_from_bytes: dec_from_bytes::<T>,
+			decode_holders: dec_holders::<T>,
 			probe: probe::<T>,
 			probe_dyn: probe_dyn::<T>,
 			probe_io: probe_io::<T>,
